@@ -36,6 +36,8 @@ type C10Scenario struct {
 	RwU32    bool      `json:"rw_u32"`
 	RwU32Val uint32    `json:"rw_u32_val"`
 	WSize    int       `json:"writer_size"` // -1: NewBufferX(); else NewSizedBufferX(size)
+	// ResetPrelude: before the writes the buffer takes some junk and is Reset
+	ResetPrelude bool `json:"reset_prelude"`
 }
 
 var allKinds = []string{"bool", "u8", "u16", "i16", "u32", "i32", "u64", "i64", "varu64", "vari64", "varu32", "vari32", "f64", "str", "lstr", "raw"}
@@ -58,9 +60,6 @@ func drawItem(rt *rapid.T, kinds []string) item {
 				b[i] = fill + byte(i%7)
 			}
 			it.S = string(b)
-		}
-		if it.Kind == "raw" && it.S == "" {
-			it.S = "x"
 		}
 		it.Limit = uint32(rapid.SampledFrom([]int{0, 1, 5, 20, 1000}).Draw(rt, "limit"))
 	default:
@@ -133,6 +132,7 @@ func drawC10(rt *rapid.T) interface{} {
 	sc.Source = rapid.SampledFrom(sourceKinds).Draw(rt, "source")
 	sc.WSize = rapid.SampledFrom([]int{-1, -1, 0, 1, 4, 16, 100}).Draw(rt, "wsize")
 	sc.Class = rapid.SampledFrom([]string{"roundtrip", "stream", "stream", "arbitrary"}).Draw(rt, "class")
+	sc.ResetPrelude = rapid.IntRange(0, 3).Draw(rt, "resetprelude") == 0
 	switch sc.Class {
 	case "roundtrip":
 		n := rapid.IntRange(0, 20).Draw(rt, "n")
@@ -412,6 +412,17 @@ func runC10(t *testing.T, sci interface{}, keepLog bool) (o *hx.Outcome) {
 			w = bytex.NewSizedBufferX(sc.WSize)
 		}
 		var written []item
+		if sc.ResetPrelude {
+			// junk, then Reset: the buffer must be as good as new
+			w.WriteString("junk that must not survive")
+			w.WriteU64(0xdeadbeef)
+			w.Reset()
+			if w.Len() != 0 || len(w.Bytes()) != 0 {
+				fail("reset-leaves-bytes", "after Reset the buffer still holds %d bytes", w.Len())
+				return
+			}
+			o.Counts["reset-before-writes"]++
+		}
 		for _, it := range sc.Items {
 			err := write(w, it)
 			if it.Kind == "lstr" && uint32(len(it.S)) > it.Limit {
@@ -451,6 +462,11 @@ func runC10(t *testing.T, sci interface{}, keepLog bool) (o *hx.Outcome) {
 			}
 			b := bytex.NewReadableBufferX(data)
 			for i, it := range written {
+				if it.Kind == "raw" && it.S == "" {
+					// ReadN(0) is refused by both readers by design (they only have to agree on that: stream class);
+					// an empty raw field is read back with the no-copy variant
+					it.Limit |= 1
+				}
 				got, err := read(b, b, nil, it)
 				log = append(log, fmt.Sprintf("buffer read %s -> %s %v", it.Kind, got, err))
 				if err != nil || got != expected(it) {
